@@ -29,7 +29,7 @@ RULE = ("step: every UTC-offset transition 2000-01-01..2037-12-31 of every zone 
 ASSUMPTIONS = ["the hourly data class builds whole local days of on-the-hour instants; windows are built the same way (pandas date_range over local wall-clock days)",
                "the second occurrence of a repeated hour may carry any value between its neighbours' slots (it is synthesised)"]
 REQUIRED_REACH = {"step.transitions": 15000, "step.ok": 14000, "e2e.predict_judged": 40, "e2e.rows": 50000, "e2e.span_with_transition": 10,
-                  "e2e.finiteness_rows": 2000, "e2e.zone_pairs_in_one_process": 2}
+                  "e2e.finiteness_rows": 2000, "e2e.zone_pairs_in_one_process": 2, "e2e.frame_without_a_modelable_row": 6}
 LO, HI = dt.datetime(2000, 1, 1), dt.datetime(2038, 1, 1)
 
 VIOL = []
@@ -235,8 +235,20 @@ def e2e_case(spec, keys):
     spans += [("two-years", "2019-01-01", 730, None)] if spec["tier"] == "thorough" and hourlyish else []
     n = 0
     for sname, start, days, tr in spans:
-        for variant in (["plain", "no-usage", "gaps"] if sname != "two-years" else ["plain"]):
-            df = fam.reporting_frame(rng, tz, start, days, with_observed=variant != "no-usage")
+        variants = ["plain", "no-usage", "gaps"] if sname != "two-years" else ["plain"]
+        if not hourlyish and sname in ("year", "transition-inside"):
+            # frames in which NO row can be modelled still come back with one (non-finite) row per timestamp
+            variants += ["no-temperature-at-all", "no-temperature-at-all:no-usage", "usage-only-on-days-without-temperature"]
+        for variant in variants:
+            df = fam.reporting_frame(rng, tz, start, min(days, 60) if variant.startswith(("no-temperature", "usage-only")) else days, with_observed=not variant.endswith("no-usage"))
+            if variant.startswith("no-temperature-at-all"):
+                df["temperature"] = np.nan
+                I.reach("e2e.frame_without_a_modelable_row")
+            if variant == "usage-only-on-days-without-temperature":
+                half = np.arange(len(df)) < len(df) // 2          # usage (no temperature) on the first half, temperature (no usage) on the second
+                df.loc[half, "temperature"] = np.nan
+                df.loc[~half, "observed"] = np.nan
+                I.reach("e2e.frame_without_a_modelable_row")
             if variant == "gaps":
                 kk = rng.choice(len(df), size=max(1, len(df) // 15), replace=False)
                 df.iloc[kk, df.columns.get_loc("temperature")] = np.nan
